@@ -2,7 +2,8 @@
 # tools/confirm_mutant.sh <Cxx> <A|B> — confirm a sub-agent's seeded change in a scratch worktree of /repo HEAD:
 # (1) compiles, (2) existing suite passes with it, (3) demo fails with it, (4) demo passes without it.
 # On success the change is kept as /verif/seeded/<Cxx>-<X>/ (patch.diff re-based onto HEAD, demo, meta.json).
-ID=$1; X=$2; SRC=/tmp/mut/out/$ID/$X; [ -d /tmp/mut/out/$ID/${X}2 ] && SRC=/tmp/mut/out/$ID/${X}2
+MUTROOT=${MUTROOT:-/tmp/mut3}
+ID=$1; X=$2; SRC=$MUTROOT/out/$ID/$X; [ -d $MUTROOT/out/$ID/${X}2 ] && SRC=$MUTROOT/out/$ID/${X}2
 . /verif/env.sh
 WT=$(mktemp -d /tmp/confirm-$ID-$X-XXXX); rmdir $WT
 git -C /repo worktree add --detach $WT HEAD >/dev/null 2>&1 || { echo "$ID-$X worktree failed"; exit 2; }
